@@ -12,7 +12,9 @@ RULE = ("compute_fft / compute_power_spectral_density: Tsd and TsdFrame signals 
         "segments strictly inside the epochs, recomputed independently (segments from the formula, brute-force slices), one or many "
         "epochs, interval sizes and overlaps in [0,1); _overlap_split == Lean model.  distinct = distinct configurations")
 PROVED = ("parseval (every N, every complex signal), psd_conserves_power, fftfreqIdx_get, sortedBins_spec (row of bin k holds FFT output "
-          "k mod n; strictly increasing; even and odd n), onesided_kept, onesided_doubling, nPoint_get")
+          "k mod n; strictly increasing; even and odd n), onesided_kept, onesided_doubling, nPoint_get"
+          "; overlapSplit_mem (the segments of the mean PSD are exactly the windows start_k + j*step .. + L ending strictly before the end of "
+          "their epoch)")
 NOT_PROVED = ("the float FFT (NumPy; compared with the definition within tolerance), which samples enter (C03), Hamming-windowed segment "
               "average and segment count (oracle + _overlap_split model correspondence)")
 ASSUMPTIONS = ["fs > 0"]
